@@ -13,7 +13,7 @@ import vlib
 META = {
     "level": "model_checking",
     "text": "TLC exhaustively checks, for every proof-map state of up to 4 validators x 3-4 targets (several power vectors incl. a heavy validator and totals not divisible by 3; both vote kinds together for 2-3 validators), that the summary computed by the transcribed Set*Powers loop equals the recount from the signatures (available, per-target, total-once, most-voted with lexicographic tie-break, independent of map iteration order) and that signers below the Byzantine minority cannot alone reach the round-jump, delay-timeout, 100%-present or any later-step threshold. Every enumerated state and simulated arrival order is instantiated with real ed25519 signature proofs and run through the real VoteSummary.Set*Powers, newVoteDistribution and GetStepFromVoteSummary; the real outputs, plus seeded random cases up to 7 validators, are validated back against the spec by TLC.",
-    "note": "Function-level: the Mirror-kernel consequence (a real Mirror jumping rounds) is checked elsewhere. uint64 overflow of the sums is out of TLC's range and not covered. Proofs are SimpleCommonMessageSignatureProof over the round's own validator keys (bits beyond len(vals) cannot occur).",
+    "note": "The Mirror-kernel consequence (a real Mirror jumping rounds / advancing on 100% present) is checked by replaying MirrorMC behaviours of the equivocation worlds on a real Mirror. uint64 overflow of the sums is out of TLC's range and not covered. Proofs are SimpleCommonMessageSignatureProof over the round's own validator keys (bits beyond len(vals) cannot occur).",
     "technique": "TLA+ spec + TLC exhaustive (design and as-is variants) + state/behaviour replay on the real Go functions with real signatures + TLC trace validation of recorded results",
     "design_ref": "DESIGN.md section 5, C06",
 }
@@ -130,7 +130,15 @@ def run(ctx):
     pkgs = {"tmconsensus": ("tm/tmconsensus", "^TestVerifC06$"),
             "tmi": ("tm/tmengine/internal/tmmirror/internal/tmi", "^TestVerifC06Dist$"),
             "tsi": ("tm/tmengine/internal/tmstate/internal/tsi", "^TestVerifC06Step$")}
-    ov = ctx.harness_overlay(*[p for p, _ in pkgs.values()], "internal/verifc06")
+    # only this check's files (+ the shared helper package): other checks' harness files that live in the same
+    # package directories are not compiled in
+    mapping = {}
+    for pkg in [p for p, _ in pkgs.values()] + ["internal/verifc06", "internal/verifcommon"]:
+        d = os.path.join(vlib.HARNESS, pkg)
+        for f in sorted(os.listdir(d)):
+            if f.endswith(".go") and (f.startswith("zz_verif_c06") or pkg == "internal/verifcommon"):
+                mapping[os.path.join(pkg, f)] = os.path.join(d, f)
+    ov = ctx.overlay(mapping)
     res = {}
 
     def go(name):
@@ -151,10 +159,10 @@ def run(ctx):
         if rc != 0 or not s:
             raise vlib.Inconclusive("C06 harness %s failed rc=%s\n%s" % (name, rc, o[-3000:]))
         summ[name] = s[0]
+        nviol_go += s[0].get("violations", 0)
         for x in recs:
             k = x.get("kind")
             if k == "violation":
-                nviol_go += 1
                 ctx.violation(x["predicate"], x["site"], x["class"], "[%s harness, real code] %s; powers %s, votes %s"
                               % (name, x["what"], x.get("pow"), json.dumps((x.get("state") or {}).get("votes"))), replay_obj=x)
             elif k == "panic":
@@ -320,4 +328,18 @@ def run(ctx):
         "real_code_variant": variant, "go_violation_records": nviol_go, "tlc_trace_predicate_failures": nviol_tlc,
         "exhaustive": True,
     }
-    return ctx.finish("model_checking", extra_cov=cov)
+    # ---- Mirror-kernel consequence: a real Mirror must not skip a round, start a delay or regard a round as
+    # fully voted on the strength of validators holding less than a third of the power (MirrorMC behaviours
+    # with one validator signing many targets, replayed on a real tmmirror.Mirror; summaries from VotingView)
+    import mirrorcheck
+    q = ctx.quick()
+    plans = [
+        {"world": "equivocation", "sim": 3 if q else 20, "steps": 7 if q else 9, "avoid": True, "cap": 220 if q else 3000, "seeds": 1 if q else 2},
+        {"world": "equivocation_heavy", "sim": 3 if q else 20, "steps": 7 if q else 9, "avoid": True, "cap": 220 if q else 3000, "seeds": 1 if q else 2},
+    ]
+    mcov, mismatches, inconcl = mirrorcheck.collect(ctx, {"C06"}, plans,
+                                                    design_cfgs=[("Mirror_c06.cfg", {"MaxSteps": 4 if q else 5}, "C06_Recount on every reachable state of the equivocation world")])
+    cov["mirror_level"] = {k: mcov[k] for k in ("design_checks", "behaviours_replayed_on_real_code", "steps_replayed",
+                                                 "distinct_abstract_states_reached_on_real_code", "spec_vs_code_divergences")}
+    rc = ctx.finish("model_checking", extra_cov=cov)
+    return mirrorcheck.conclude(rc, mismatches, inconcl)
